@@ -59,6 +59,19 @@ Theorem C06_release_stops : forall s o, released s = true ->
 Proof. exact release_stops. Qed.
 Print Assumptions C06_release_stops.
 
+(* Removal of the whole cluster (the check conf disappears AND the backend is released) releases the backend in every
+   state; and once released - by Release or RemoveCluster, whether the backend is up, down with a check outstanding, with
+   or without a check conf - no later history raises the number of checkers again. *)
+Theorem C06_cluster_removal_releases : forall s,
+  released (hstep s RemoveCluster) = true /\ checkers (hstep s RemoveCluster) = checkers s /\
+  avail (hstep s RemoveCluster) = avail s.
+Proof. exact remove_cluster_releases. Qed.
+Print Assumptions C06_cluster_removal_releases.
+Theorem C06_released_forever : forall ops s, released s = true ->
+  Forall (fun s' => released s' = true /\ checkers s' <= checkers s) (hrun s ops).
+Proof. exact released_forever. Qed.
+Print Assumptions C06_released_forever.
+
 (* Wire level: for every well-formed input the model's observations satisfy prop_C06, the specification monitor
    (model/Health.v mon_step: own bookkeeping of consecutive failures / successes, written from the property text). *)
 Theorem C06_prop_of_model : forall i, dec_input i <> None -> prop_C06 i (run_C06 i) = true.
